@@ -173,7 +173,7 @@ CHECKS["C11"] = {
 MANIFEST_TEXT = {
     "C05": {
         "technique": "regenerated regex facts (T2, decide) + Lean 4 theorems about recognisers, layout builder and content rules + differential correspondence judged by independent recognisers",
-        "text": "T2_patterns: every regexp.MustCompile constant of valid/init.go is re-extracted on each run and its regexp/syntax normal form must equal the one the model's recognisers transcribe (a widened class, a dropped anchor or an unescaped dot changes it). Theorems for every byte string / separator: C05_int, C05_phone, C05_float, C05_idcard (model recogniser = independent Spec.Lang recogniser), C05_timefmt_year/year2month/date/datetime (the layout is the components interleaved with the given separators), C05_date_uses_layout, C05_unique_string, C05_prefix_suffix. Tie: stream lang (60k cases quick): each of 20 rules on members of its language, 1-3 single-rune edits and random strings, custom / doubled / layout-significant separators, quoted options, through Var/Struct/Map/Url; the implementation's verdict is judged against the independent recognisers of Spec.Lang (phone, email, idcard, int, float, year, year2month, date, datetime, in, include, ints, unique, prefix, suffix), its text against the model.",
+        "text": "T2_patterns: every regexp.MustCompile constant of valid/init.go is re-extracted on each run and its regexp/syntax normal form must equal the one the model's recognisers transcribe (a widened class, a dropped anchor or an unescaped dot changes it). Theorems for every byte string / separator: C05_int, C05_phone, C05_float, C05_idcard, C05_email (model recogniser = independent Spec.Lang recogniser), C05_accepts_sound (for the eleven rules that need no residual — the five patterns, in, include, ints, unique, prefix, suffix — every rule text key[=arg][|message] and every string: the registered function writes a clause iff Spec.Lang.accepts, the predicate evaluated against the implementation on every probe, says outside), C05_timefmt_year/year2month/date/datetime (the layout is the components interleaved with the given separators), C05_date_uses_layout, C05_unique_string, C05_prefix_suffix. Tie: stream lang (60k cases quick): each of 20 rules on members of its language, 1-3 single-rune edits and random strings, custom / doubled / layout-significant separators, quoted options, through Var/Struct/Map/Url; the implementation's verdict is judged against the independent recognisers of Spec.Lang (phone, email, idcard, int, float, year, year2month, date, datetime, in, include, ints, unique, prefix, suffix), its text against the model.",
         "note": "Trusted: Lean kernel; Spec.Lang as the reading of the documentation; regexp and time semantics of the stdlib; email recogniser-vs-spec equivalence is checked by the stream, not yet a theorem. Genuine defect found by this check and repaired (F-C05-f).",
     },
     "C08": {
@@ -188,7 +188,7 @@ MANIFEST_TEXT = {
     },
     "C10": {
         "technique": "Lean 4 theorem (coarse-lock linearizability invariant over every reachable configuration, any number of threads) + regenerated lock facts (T2, decide) + race-detector stress and linearizability search with witness replay in Lean (support)",
-        "text": "Theorem C10_linearizable (+ state_is_sequential, returned_linearized, real_time): if every operation runs atomically between invocation and response, every reachable configuration of the interleaving semantics over the sequential bounded LRU is linearizable — for any number of threads and every schedule. Premise: T2_lock_discipline, re-extracted from cache.go on every run (writers hold the exclusive lock for the whole body, readers at least the shared lock, lock-free helpers only under the exclusive lock). Partial: mutex semantics and data-race freedom are runtime contracts; stream lru-conc runs 2-16 goroutines, searches small histories for a linearization (witness replayed in the Lean model/spec), checks large ones at quiescence, and is run again under -race.",
+        "text": "Theorem C10_linearizable (+ state_is_sequential, returned_linearized, real_time): if every operation runs atomically between invocation and response, every reachable configuration of the interleaving semantics over the sequential bounded LRU is linearizable — for any number of threads and every schedule. Premise: T2_lock_discipline, re-extracted from cache.go on every run (writers hold the exclusive lock for the whole body, readers at least the shared lock, lock-free helpers only under the exclusive lock, no method takes the lock twice — RWMutex is not re-entrant). Partial: mutex semantics and data-race freedom are runtime contracts; stream lru-conc runs 2-16 goroutines, searches small histories for a linearization (witness replayed in the Lean model/spec), checks large ones at quiescence, reports histories whose goroutines are still blocked after 20 s, and is run again under -race.",
         "note": "Trusted: Lean kernel; sync.RWMutex; the lock-fact extractor (go/ast, ~120 lines); C09 for sequential behaviour.",
     },
     "C11": {
@@ -213,7 +213,7 @@ MANIFEST_TEXT = {
     },
     "C20": {
         "technique": "Lean 4 refinement theorem dump = print . doc (mutual structural induction over value trees) + differential correspondence + independent encoding/json oracle",
-        "text": "Theorem C20_dump_is_print (with C20_object / C20_elements / C20_entries / C20_dump_appends): for EVERY in-scope value — field-less structs, first or all fields unexported, any nesting depth, nil and multi-level pointers, nil/empty/any-length slices and arrays, nil/empty/multi-entry maps — the dumper's buffer grows by exactly the compact JSON text of the value's document (objects with single commas between exported members, booleans as strings, nil slice [], nil map {}, nil pointer null). Tie: stream dump compares GetDumpStructStr with the model byte for byte (any map order) and decodes it with encoding/json against the standard encoding of the value.",
+        "text": "Theorem C20_dump_is_print (with C20_object / C20_elements / C20_entries / C20_dump_appends): for EVERY in-scope value — field-less structs, first or all fields unexported, any nesting depth, nil and multi-level pointers, nil/empty/any-length slices and arrays, nil/empty/multi-entry maps — the dumper's buffer grows by exactly the compact JSON text of the value's document (objects with single commas between exported members, booleans as strings, nil slice [], nil map {}, nil pointer null). Well-formedness: C20_parse_print / C20_output_parses — an independent reader of compact JSON (RFC 8259 numbers, strings without escapes, arrays, objects) reads the output back as exactly that document, for every document whose strings need no escapes and whose number texts are JSON numbers (decimal integers proved to be: C20_integers_wellformed; float texts come from strconv.FormatFloat and are checked per case). Tie: stream dump compares GetDumpStructStr with the model byte for byte (any map order) and decodes it with encoding/json against the standard encoding of the value.",
         "note": "Trusted: Lean kernel; Spec.Json.print as the definition of compact JSON text (well-formedness of print is by construction of the grammar, a parser round-trip theorem is future work); doc = what encoding/json produces is validated by the oracle, not proved. Known findings: []byte (F-C20-d) and embedded structs (F-C20-e).",
     },
 
@@ -229,7 +229,7 @@ MANIFEST_TEXT = {
     },
     "C04": {
         "technique": "Lean 4 theorems (walker equations: reach and path naming) + differential correspondence on deep type graphs",
-        "text": "Theorems (all configurations, values, states): unmarked, unexported and time.Time fields are never looked at; required/exist validate the nested object under Parent.Field, elements under Parent.Field[i] in index order, entries under Parent.Field[key]; nil pointers, zero structs, nil collections and non-struct elements are passed over silently. Tie: walk-deep (graphs to depth 6 through value, *, **, [], [n], map) and walk compare whole error strings.",
+        "text": "Theorems (all configurations, values, states): unmarked, unexported and time.Time fields are never looked at; required/exist validate the nested object under Parent.Field, elements under Parent.Field[i] in index order, entries under Parent.Field[key]; nil pointers, zero structs, nil collections and non-struct elements are passed over silently. Tie: walk-deep (graphs to depth 6 through value, *, **, ***, [], [n], map with string / signed / unsigned / bool / float / named-string keys, collections of pointers of depth 1-3) and walk compare whole error strings.",
         "note": "Trusted: Lean kernel; reflect transcription; correspondence. Statements are one-step equations of the mutually recursive walker; their composition over a whole tree is exercised by the streams.",
     },
     "C13": {
